@@ -6,7 +6,6 @@ import (
 	"os"
 	"path/filepath"
 	"regexp"
-	"strings"
 
 	"github.com/bmatcuk/doublestar/v4"
 	"gopkg.in/yaml.v3"
@@ -97,7 +96,7 @@ func (cfg *Config) PathConfigs(path string) []PathConfig {
 func ParseConfig(b []byte) (*Config, error) {
 	var c Config
 	if err := yaml.Unmarshal(b, &c); err != nil {
-		msg := strings.ReplaceAll(err.Error(), "\n", " ")
+		msg := replaceLineBreaks(err.Error())
 		return nil, errors.New(msg)
 	}
 	for pat := range c.Paths {
